@@ -25,6 +25,7 @@ RTOL = 1e-8          # (rel) sub-claims through SVD / eig
 INVS = {
     "proj": ["ProjHermitian", "ProjIdempotent", "ProjFixesA", "ProjComplementary", "ReflectTwice", "ProjRank", "ProjSplits"],
     "chord": ["ChordFormsAgree", "ChordSymmetric", "ChordZeroOnEqual", "ChordBasisInvariant", "ChordUnitaryInvariant", "ChordHouseholderIsUnitary", "ChordAngles", "ChordRange"],
+    "chordx": ["ChordXFormsAgree", "ChordXSymmetric", "ChordXBasisInvariant", "ChordXUnitaryInvariant", "ChordXRange"],
     "smw": ["SmwIsInverse"],
     "conv": ["ConvInverse", "ConvOffset"],
     "ebn0": ["EbLaw"],
@@ -35,11 +36,14 @@ INVS = {
     "eigrel": ["EigRelInput"],
 }
 INVS["projx"] = INVS["proj"]
-ACTION_OF = {"proj": "Proj", "projx": "Proj", "chord": "Chord", "conv": "Conv", "ebn0": "Eb", "eig": "Eig", "svd": "Svd",
+ACTION_OF = {"proj": "Proj", "projx": "Proj", "chord": "Chord", "chordx": "ChordX", "conv": "Conv", "ebn0": "Eb", "eig": "Eig", "svd": "Svd",
              "gmd": "Gmd", "whiten": "Whiten", "eigrel": "EigRel"}
-ACTIONS = ["Proj", "Chord", "SmwPick", "SmwStep", "Conv", "Eb", "Eig", "Svd", "Gmd", "Whiten", "EigRel"]
+ACTIONS = ["Proj", "Chord", "ChordX", "SmwPick", "SmwStep", "Conv", "Eb", "Eig", "Svd", "Gmd", "Whiten", "EigRel"]
 
 SQ = lambda *ns: [[n, n] for n in ns]
+# <<rows, n1, n2>> for the mixed-dimension chordal family; (dA dB)^2 (n1 + n2) stays below 2^31 for these
+MIXED = [[2, 1, 2], [2, 2, 1], [3, 1, 2], [3, 2, 1], [3, 1, 3], [3, 3, 1], [3, 2, 3], [3, 3, 2], [4, 1, 2], [4, 2, 1],
+         [4, 1, 3], [4, 3, 1], [5, 1, 2], [5, 2, 1], [5, 1, 3], [5, 3, 1], [4, 2, 2], [3, 1, 1]]
 ALL_SHAPES_5 = [[r, c] for r in range(1, 6) for c in range(1, 6)]
 ALL_SHAPES_8 = [[r, c] for r in range(1, 9) for c in range(1, 9)]
 
@@ -54,6 +58,7 @@ def plan(tier):
             ("proj 3x2/4x2/2x2 a=2", "proj", [[3, 2], [4, 2], [2, 2], [4, 1]], 2, 320, 320),
             ("proj 4x3/5x2/3x3 a=1", "proj", [[4, 3], [5, 2], [3, 3], [5, 1]], 1, 200, 200),
             ("chord", "chord", [[2, 1], [3, 1], [3, 2], [4, 1], [4, 2]], 1, 400, 400),
+            ("chordx (unequal dims)", "chordx", MIXED, 1, 360, 360),
             ("smw 2,3 a=2", "smw", SQ(2, 3), 2, 200, 200),
             ("smw 1,4 a=1", "smw", SQ(1, 4), 1, 60, 60),
             ("conv", "conv", [[1, 1]], 15, 279, 279),
@@ -74,6 +79,7 @@ def plan(tier):
         ("proj a=2", "proj", [[3, 2], [4, 2], [2, 2], [4, 1], [3, 1], [2, 1]], 2, 12000, 1000),
         ("proj a=1", "proj", [[4, 3], [5, 2], [3, 3], [5, 1], [6, 2], [6, 1], [4, 4]], 1, 7000, 1000),
         ("chord", "chord", [[2, 1], [3, 1], [3, 2], [4, 1], [4, 2], [2, 2]], 1, 15000, 1000),
+        ("chordx (unequal dims)", "chordx", MIXED, 1, 9000, 1000),
         ("smw 2,3 a=2", "smw", SQ(2, 3), 2, 8000, 1000),
         ("smw 1,4 a=1", "smw", SQ(1, 4), 1, 2000, 500),
         ("conv", "conv", [[1, 1]], 30, 549, 549),
@@ -185,8 +191,8 @@ def ev_proj(c, o):
         o.check(close(pr.project(M), PM), t + "project(M) != P M")
         o.check(close(pr.oProject(M), oPM), t + "oProject(M) != (I - P) M")
         o.check(close(pr.reflect(M), RM), t + "reflect(M) != (I - 2P) M")
-        v = M[:, 0]
-        o.check(close(pr.project(v), PM[:, 0]) and close(pr.oProject(v), oPM[:, 0]) and close(pr.reflect(v), RM[:, 0]),
+        v = M[:, -1]
+        o.check(close(pr.project(v), PM[:, -1]) and close(pr.oProject(v), oPM[:, -1]) and close(pr.reflect(v), RM[:, -1]),
                 t + "project / oProject / reflect of a 1-D vector differ from the matrix column result")
         # the laws of the property evaluated on the real object (the expected values are the inputs)
         o.check(close(pr.reflect(pr.reflect(M)), M), t + "reflect(reflect(M)) != M")
@@ -233,6 +239,41 @@ def ev_chord(c, o):
                 o.check(close(float(np.sum(c2)), rat(c["cos2sum"])) and close(float(np.prod(c2)), rat(c["cos2prod"])),
                         f"[{dt}] calc_principal_angles: sum / product of cos^2 = {float(np.sum(c2))!r}, {float(np.prod(c2))!r}, "
                         f"expected {rat(c['cos2sum'])!r}, {rat(c['cos2prod'])!r}")
+
+
+def ev_chordx(c, o):
+    """subspaces of different dimension: the two projector-based routines are defined (the principal-angle routine
+    yields min(n1, n2) angles whose cos^2 sum to tr(P_A P_B), but no distance)"""
+    from pyphysim.subspace import metrics as mt
+    d2 = rat(c["d2"])
+    A, B, AT, BT, UA, UB, HA, HB = (mat(c[k]) for k in ("A", "B", "AT", "BT", "UA", "UB", "HA", "HB"))
+    real = all(is_real(c[k]) for k in ("A", "B", "AT", "BT"))
+    sets = [("complex", A, B, AT, BT)]
+    if real:
+        sets.append(("float", A.real.copy(), B.real.copy(), AT.real.copy(), BT.real.copy()))
+    dims = f"{c['rows']}x{c['n1']} vs {c['rows']}x{c['n2']}"
+    for name, f in (("calc_chordal_distance", mt.calc_chordal_distance), ("calc_chordal_distance_2", mt.calc_chordal_distance_2)):
+        for dt, a, b, at, bt in sets:
+            for what, x, y in (("d(A,B)", a, b), ("d(B,A) (symmetry)", b, a), ("d(AT,B) (change of basis)", at, b),
+                               ("d(A,BT) (change of basis)", a, bt), ("d(BT,AT)", bt, at)):
+                ok, d = _call(o, f"{name} {what} {dims}", f, x, y)
+                if ok:
+                    d = float(np.real(d))
+                    o.check(d >= 0 and close(d * d, d2), f"[{dt}] {name} {dims}: {what}^2 = {d * d!r}, expected {d2!r}")
+        for what, x, y in (("d(UA,UB) (common signed-permutation unitary)", UA, UB), ("d(HB,HA) (common Householder rotation)", HB, HA)):
+            ok, d = _call(o, f"{name} {what} {dims}", f, x, y)
+            if ok:
+                d = float(np.real(d))
+                o.check(d >= 0 and close(d * d, d2), f"{name} {dims}: {what}^2 = {d * d!r}, expected {d2!r}")
+    k = min(c["n1"], c["n2"])
+    for x, y in ((A, B), (B, A)):
+        ok, ang = _call(o, f"calc_principal_angles {dims}", mt.calc_principal_angles, x, y)
+        if ok:
+            ang = np.asarray(ang, dtype=float)
+            good = ang.shape == (k,) and bool(np.all(ang >= 0)) and bool(np.all(ang <= np.pi / 2 + 1e-7)) and bool(np.all(np.diff(ang) >= -1e-7))
+            if o.check(good, f"calc_principal_angles {dims}: not {k} ascending angles in [0, pi/2]: {ang.tolist()}"):
+                o.check(close(float(np.sum(np.cos(ang) ** 2)), rat(c["cos2sum"])),
+                        f"calc_principal_angles {dims}: sum cos^2 = {float(np.sum(np.cos(ang) ** 2))!r}, expected tr(P_A P_B) = {rat(c['cos2sum'])!r}")
 
 
 def ev_smw(c, o):
@@ -431,7 +472,7 @@ def ev_eigrel(c, o):
                     o.check(abs(np.sum(D) - c["tr"]) <= RTOL * max(1.0, c["tr"]), t + f": sum of eigenvalues != tr(H) = {c['tr']} (exact)")
 
 
-EVAL = {"proj": ev_proj, "chord": ev_chord, "smw": ev_smw, "conv": ev_conv, "ebn0": ev_ebn0, "eig": ev_eig, "svd": ev_svd,
+EVAL = {"proj": ev_proj, "chord": ev_chord, "chordx": ev_chordx, "smw": ev_smw, "conv": ev_conv, "ebn0": ev_ebn0, "eig": ev_eig, "svd": ev_svd,
         "gmd": ev_gmd, "whiten": ev_whiten, "eigrel": ev_eigrel}
 
 
@@ -462,7 +503,7 @@ def case_key(c):
 
 def brief(c):
     """a case without the bulky derived fields (for evidence samples)"""
-    keep = ("kind", "id", "A", "B", "H", "C", "n", "k", "m", "b", "den", "d2", "peigD", "remS", "dd", "diagk", "dB", "dBm", "gm2p", "detC")
+    keep = ("kind", "id", "A", "B", "H", "C", "n", "n1", "n2", "k", "m", "b", "den", "d2", "peigD", "remS", "dd", "diagk", "dB", "dBm", "gm2p", "detC")
     return {k: c[k] for k in keep if k in c}
 
 
